@@ -25,7 +25,7 @@ HIST = {
     'C07': dict(quick=700, thorough=9000, nops=9, nops_thorough=14),
     'C08': dict(quick=700, thorough=9000, nops=10, nops_thorough=16),
     'C09': dict(quick=700, thorough=9000, nops=12, nops_thorough=16),
-    'C10': dict(quick=900, thorough=12000, nops=14, nops_thorough=18, alpha='aabbA  \t\n--\r\x0b\x0c\x1c\x85\u2028\xe9', start=2),
+    'C10': dict(quick=900, thorough=12000, nops=14, nops_thorough=18, alpha='aabbA  \t\n--\r\x0b\x0c\x1c\x85\u2028\xe9\xdf\ufb01\u0130\u0149\u01c5', start=2),
     'C11': dict(quick=900, thorough=12000, nops=12, nops_thorough=16, alpha='aabbbA \t\n-', start=1),
     'C12': dict(quick=700, thorough=9000, nops=9, nops_thorough=12, start=1),
     'C16': dict(quick=700, thorough=9000, nops=8, nops_thorough=12, alpha='abAB -\u0130\u017f\u03c3\u03c2\u212a'),
@@ -303,9 +303,10 @@ def check_c18(prop, tier, seed):
     maxlen = 5 if tier == 'thorough' else 4
     camp, total = enum_campaign('pgs', funcs.CODE_ALPHA, maxlen, 40, seed)
     s2d = campaign.run_campaign('s2d', 600 if tier == 'thorough' else 60, seed, block=50)
-    return report(prop, tier, seed, t0, merge(camp, s2d), design,
+    allc = campaign.run_campaign('pgs_codes', 1, seed)
+    return report(prop, tier, seed, t0, merge(camp, s2d, allc), design,
                   extra_cov={'rule': 'all code lists over %s up to length %d, each as ;-string, list of int and list of str, '
-                                     'with add_erroneous False/True; random settings_to_dict(settings, old) calls' % (funcs.CODE_ALPHA, maxlen),
+                                     'with add_erroneous False/True/False again; every code 0..120 alone, next to another code and on a prior state; random settings_to_dict(settings, old) calls' % (funcs.CODE_ALPHA, maxlen),
                              'inputs_enumerated': total, 'exhaustive': True})
 
 
